@@ -73,9 +73,19 @@ fn sval(k: u32) -> String {
     if k == 60 {
         return String::new(); // the empty string is a regular value
     }
-    // lengths: <= 4 bytes, <= 4 bytes, 8..9 bytes (inline view, 5..12), > 12 bytes (view needs a data buffer)
-    let pad = ["", "x", "inline-", "a-long-prefix-over-twelve-bytes-"][(k % 4) as usize];
-    format!("{pad}{k}")
+    // length classes (k % 8): <= 2, <= 3, 8..9 (inline view), > 30 (view needs a data buffer),
+    // 11..12 (12 = longest inline view), 12..13 (13 = shortest non-inline view), <= 3, ~300 bytes
+    // (a few dozen of them cross the coalescer's 8 KiB / 16 KiB view blocks)
+    match k % 8 {
+        0 => format!("{k}"),
+        1 => format!("x{k}"),
+        2 => format!("inline-{k}"),
+        3 => format!("a-long-prefix-over-twelve-bytes-{k}"),
+        4 => format!("ten-bytes--{k}"),
+        5 => format!("eleven-byte-{k}"),
+        6 => format!("y{k}"),
+        _ => format!("{}{k}", "huge-value-padding-".repeat(16)),
+    }
 }
 fn sval_id(s: &[u8]) -> Option<u32> {
     let s = std::str::from_utf8(s).ok()?;
@@ -88,7 +98,22 @@ fn sval_id(s: &[u8]) -> Option<u32> {
 }
 
 const ALL_TYPES: &[&str] =
-    &["i32", "i64", "bool", "utf8", "lutf8", "bin", "lbin", "sv", "bv", "dict", "fsb", "list", "struct", "f64", "ts", "fsl", "dicts", "dicti8", "dictu8", "dictu16", "dictu64"];
+    &["i32", "i64", "bool", "utf8", "lutf8", "bin", "lbin", "sv", "bv", "dict", "fsb", "list", "struct", "f64", "ts", "fsl", "dicts", "dicti8", "dictu8", "dictu16", "dictu64",
+    "dictp", "dec", "llist", "lv", "map", "ree", "sunion", "dunion"];
+
+fn union_fields() -> arrow_schema::UnionFields {
+    arrow_schema::UnionFields::try_new(vec![0, 1], vec![Field::new("a", DataType::Int32, true), Field::new("b", DataType::Utf8, true)]).unwrap()
+}
+fn map_field() -> Arc<Field> {
+    Arc::new(Field::new(
+        "entries",
+        DataType::Struct(Fields::from(vec![Field::new("keys", DataType::Utf8, false), Field::new("values", DataType::Int32, true)])),
+        false,
+    ))
+}
+fn ree_type() -> DataType {
+    DataType::RunEndEncoded(Arc::new(Field::new("run_ends", DataType::Int32, false)), Arc::new(Field::new("values", DataType::Int32, true)))
+}
 
 /// dictionary realisations: (key type, value type); `dicts` = inputs of one kernel call share one values array
 fn dict_kind(ty: &str) -> Option<(&'static str, &'static str)> {
@@ -277,6 +302,14 @@ fn data_type_of(ty: &str) -> DataType {
         "list" => DataType::List(Arc::new(Field::new_list_field(DataType::Int32, true))),
         "fsl" => DataType::FixedSizeList(Arc::new(Field::new_list_field(DataType::Int32, true)), 2),
         "struct" => DataType::Struct(struct_fields()),
+        "dictp" => DataType::Dictionary(Box::new(DataType::Int32), Box::new(DataType::Int64)),
+        "dec" => DataType::Decimal128(20, 3),
+        "llist" => DataType::LargeList(Arc::new(Field::new_list_field(DataType::Int32, true))),
+        "lv" => DataType::ListView(Arc::new(Field::new_list_field(DataType::Int32, true))),
+        "map" => DataType::Map(map_field(), false),
+        "ree" => ree_type(),
+        "sunion" => DataType::Union(union_fields(), arrow_schema::UnionMode::Sparse),
+        "dunion" => DataType::Union(union_fields(), arrow_schema::UnionMode::Dense),
         _ => panic!("bad type tag"),
     }
 }
@@ -302,6 +335,11 @@ fn build_full(ty: &str, rows: &[Row], salt: usize) -> ArrayRef {
             TimestampMillisecondArray::new(ids.iter().map(|&k| k as i64).collect::<Vec<i64>>().into(), nulls).with_timezone("+01:00"),
         ),
         "bool" => Arc::new(BooleanArray::new(ids.iter().map(|&k| k % 2 == 1).collect::<Vec<bool>>().into(), nulls)),
+        "utf8" | "lutf8" | "bin" | "lbin" if salt % 2 == 1 => {
+            // explicit offsets: a null slot covers the bytes of another value
+            let entries: Vec<(Vec<u8>, bool)> = rows.iter().map(|r| (sval(r.unwrap_or(under)).into_bytes(), r.is_some())).collect();
+            build_dict_values(ty, &entries)
+        }
         "utf8" => Arc::new(StringArray::from_iter(rows.iter().map(|r| r.map(sval)))),
         "lutf8" => Arc::new(LargeStringArray::from_iter(rows.iter().map(|r| r.map(sval)))),
         "bin" => Arc::new(BinaryArray::from_iter(rows.iter().map(|r| r.map(|k| sval(k).into_bytes())))),
@@ -347,9 +385,119 @@ fn build_full(ty: &str, rows: &[Row], salt: usize) -> ArrayRef {
         }
         "struct" => {
             // children are valid (and hold junk) under a null struct row
-            let a = Int32Array::from(ids.iter().map(|&k| k as i32).collect::<Vec<i32>>());
-            let b = StringArray::from_iter_values(ids.iter().map(|&k| sval(k)));
+            // (and are themselves slices at different offsets of longer arrays when salt % 3 != 0)
+            let (oa, ob) = if salt % 3 == 0 { (0, 0) } else { (salt % 5 + 1, salt % 3 + 2) };
+            let pad = |o: usize| -> Vec<u32> { (0..o).map(|i| 70 + i as u32).chain(ids.iter().copied()).chain([71u32]).collect() };
+            let a = Int32Array::from(pad(oa).iter().map(|&k| k as i32).collect::<Vec<i32>>()).slice(oa, ids.len());
+            let b = StringArray::from_iter_values(pad(ob).iter().map(|&k| sval(k))).slice(ob, ids.len());
             Arc::new(StructArray::new(struct_fields(), vec![Arc::new(a), Arc::new(b)], nulls))
+        }
+        "dec" => Arc::new(
+            Decimal128Array::new(ids.iter().map(|&k| k as i128 * 1_000_003).collect::<Vec<i128>>().into(), nulls).with_precision_and_scale(20, 3).unwrap(),
+        ),
+        "dictp" => {
+            // primitive dictionary values with a NULL slot whose payload equals a present value
+            let mut present: Vec<u32> = rows.iter().flatten().copied().collect();
+            present.sort();
+            present.dedup();
+            let mut vals: Vec<Option<i64>> = present.iter().map(|&k| Some(k as i64 * 7)).collect();
+            vals.push(Some(999));
+            let null_slot = vals.len();
+            let payload = present.first().map(|&k| k as i64 * 7).unwrap_or(0);
+            let values = Int64Array::new(
+                vals.iter().map(|v| v.unwrap()).chain([payload]).collect::<Vec<i64>>().into(),
+                Some(NullBuffer::from((0..=null_slot).map(|i| i != null_slot).collect::<Vec<bool>>())),
+            );
+            let mut kv = vec![];
+            let keys: Vec<i32> = rows
+                .iter()
+                .enumerate()
+                .map(|(i, r)| match r {
+                    Some(id) => {
+                        kv.push(true);
+                        present.binary_search(id).unwrap() as i32
+                    }
+                    None if (i + salt) % 2 == 0 => {
+                        kv.push(false);
+                        0
+                    }
+                    None => {
+                        kv.push(true);
+                        null_slot as i32
+                    }
+                })
+                .collect();
+            let kn = if kv.iter().all(|b| *b) && salt % 2 == 0 { None } else { Some(NullBuffer::from(kv)) };
+            Arc::new(DictionaryArray::<Int32Type>::new(Int32Array::new(keys.into(), kn), Arc::new(values)))
+        }
+        "llist" | "lv" => {
+            let it = rows.iter().map(|r| {
+                r.map(|k| if k == 0 { vec![] } else { (0..(1 + k % 3)).map(|j| if j == 1 { None } else { Some(k as i32) }).collect::<Vec<Option<i32>>>() })
+            });
+            if ty == "llist" {
+                Arc::new(LargeListArray::from_iter_primitive::<Int32Type, _, _>(it))
+            } else {
+                Arc::new(ListViewArray::from_iter_primitive::<Int32Type, _, _>(it))
+            }
+        }
+        "map" => {
+            let mut b = MapBuilder::new(None, StringBuilder::new(), Int32Builder::new());
+            for r in rows {
+                match r {
+                    Some(k) => {
+                        if *k > 0 {
+                            for j in 0..(1 + k % 2) {
+                                b.keys().append_value(sval(*k + j));
+                                b.values().append_value(*k as i32);
+                            }
+                        }
+                        b.append(true).unwrap();
+                    }
+                    None => b.append(false).unwrap(),
+                }
+            }
+            Arc::new(b.finish())
+        }
+        "ree" => {
+            // runs: equal neighbours merged when salt is even, one run per row otherwise
+            let mut run_rows: Vec<Row> = vec![];
+            let mut ends: Vec<i32> = vec![];
+            for (i, r) in rows.iter().enumerate() {
+                if salt % 2 == 0 && !run_rows.is_empty() && run_rows.last().unwrap() == r {
+                    *ends.last_mut().unwrap() = i as i32 + 1;
+                } else {
+                    run_rows.push(*r);
+                    ends.push(i as i32 + 1);
+                }
+            }
+            let values = build_full("i32", &run_rows, salt);
+            Arc::new(RunArray::<Int32Type>::try_new(&Int32Array::from(ends), values.as_ref()).unwrap())
+        }
+        "sunion" | "dunion" => {
+            // even id → child 0 (Int32), odd id → child 1 (Utf8); a null row is a null Int32 child slot
+            let type_ids: Vec<i8> = rows.iter().map(|r| r.map(|k| (k % 2) as i8).unwrap_or(0)).collect();
+            if ty == "sunion" {
+                let a = Int32Array::from(rows.iter().map(|r| r.filter(|k| k % 2 == 0).map(|k| k as i32)).collect::<Vec<Option<i32>>>());
+                let b = StringArray::from_iter(rows.iter().map(|r| r.filter(|k| k % 2 == 1).map(sval)));
+                Arc::new(UnionArray::try_new(union_fields(), type_ids.into(), None, vec![Arc::new(a), Arc::new(b)]).unwrap())
+            } else {
+                let mut a: Vec<Option<i32>> = vec![];
+                let mut b: Vec<Option<String>> = vec![];
+                let mut offsets: Vec<i32> = vec![];
+                for r in rows {
+                    match r {
+                        Some(k) if k % 2 == 1 => {
+                            offsets.push(b.len() as i32);
+                            b.push(Some(sval(*k)));
+                        }
+                        _ => {
+                            offsets.push(a.len() as i32);
+                            a.push(r.map(|k| k as i32));
+                        }
+                    }
+                }
+                Arc::new(UnionArray::try_new(union_fields(), type_ids.into(), Some(offsets.into()), vec![Arc::new(Int32Array::from(a)), Arc::new(StringArray::from(b))]).unwrap())
+            }
         }
         _ => panic!("bad type tag"),
     }
@@ -388,6 +536,56 @@ fn decode(ty: &str, a: &dyn Array) -> Result<Vec<Row>, String> {
     }
     if dict_kind(ty).is_some() {
         return decode_dict(ty, a);
+    }
+    if ty == "ree" {
+        let r = a.as_any().downcast_ref::<RunArray<Int32Type>>().ok_or("TYPE")?;
+        let vals = decode("i32", r.values().as_ref())?;
+        return Ok((0..r.len()).map(|i| vals[r.get_physical_index(i)]).collect());
+    }
+    if ty == "sunion" || ty == "dunion" {
+        let u = a.as_union();
+        let mut out = vec![];
+        for i in 0..u.len() {
+            let v = u.value(i);
+            if v.is_null(0) {
+                out.push(None);
+            } else if u.type_id(i) == 0 {
+                let k = v.as_primitive::<Int32Type>().value(0) as u32;
+                if k % 2 != 0 {
+                    return Err(format!("GARBLED-ROW:{}", i));
+                }
+                out.push(Some(k));
+            } else {
+                match sval_id(v.as_string::<i32>().value(0).as_bytes()) {
+                    Some(k) if k % 2 == 1 => out.push(Some(k)),
+                    _ => return Err(format!("GARBLED-ROW:{}", i)),
+                }
+            }
+        }
+        return Ok(out);
+    }
+    if ty == "dictp" {
+        let d = a.as_dictionary::<Int32Type>();
+        let vals = d.values().as_primitive::<Int64Type>();
+        let mut out = vec![];
+        for i in 0..a.len() {
+            if d.keys().is_null(i) {
+                out.push(None);
+                continue;
+            }
+            let k = d.keys().value(i) as usize;
+            if k >= vals.len() {
+                return Err(format!("GARBLED-ROW:{}", i));
+            }
+            if vals.is_null(k) {
+                out.push(None);
+            } else if vals.value(k) % 7 == 0 && vals.value(k) >= 0 {
+                out.push(Some((vals.value(k) / 7) as u32));
+            } else {
+                return Err(format!("GARBLED-ROW:{}", i));
+            }
+        }
+        return Ok(out);
     }
     let n = a.len();
     let mut out = Vec::with_capacity(n);
@@ -437,6 +635,35 @@ fn decode(ty: &str, a: &dyn Array) -> Result<Vec<Row>, String> {
                 let k = v.value(0);
                 let ok = v.len() == 2 && v.is_valid(0) && (if k % 2 == 0 { v.is_null(1) } else { v.is_valid(1) && v.value(1) == k + 1 });
                 if ok { Some(k as u32) } else { None }
+            }
+            "dec" => {
+                let v = a.as_primitive::<Decimal128Type>().value(i);
+                if v >= 0 && v % 1_000_003 == 0 { Some((v / 1_000_003) as u32) } else { None }
+            }
+            "llist" | "lv" => {
+                let v = if ty == "llist" { a.as_list::<i64>().value(i) } else { a.as_list_view::<i32>().value(i) };
+                let v = v.as_primitive::<Int32Type>();
+                if v.is_empty() {
+                    Some(0)
+                } else {
+                    let k = v.value(0) as u32;
+                    let ok = k > 0
+                        && v.len() == (1 + k % 3) as usize
+                        && (0..v.len()).all(|j| if j == 1 { v.is_null(j) } else { v.is_valid(j) && v.value(j) as u32 == k });
+                    if ok { Some(k) } else { None }
+                }
+            }
+            "map" => {
+                let e = a.as_map().value(i);
+                if e.len() == 0 {
+                    Some(0)
+                } else {
+                    let k = e.column(1).as_primitive::<Int32Type>().value(0) as u32;
+                    let ok = k > 0
+                        && e.len() == (1 + k % 2) as usize
+                        && (0..e.len()).all(|j| sval_id(e.column(0).as_string::<i32>().value(j).as_bytes()) == Some(k + j as u32) && e.column(1).as_primitive::<Int32Type>().value(j) as u32 == k);
+                    if ok { Some(k) } else { None }
+                }
             }
             "struct" => {
                 let s = a.as_struct();
@@ -1691,7 +1918,7 @@ fn answer_tags(line: &str, answer: &str) -> &'static str {
         let tr: Vec<&str> = t[5].split(':').collect();
         let fa: Vec<&str> = t[6].split(':').collect();
         if tr[0] == "s" && tr[1] != "n" && fa[0] == "s" && fa.len() == 3 && fa[2] != "0" && fa[1] != "n" {
-            if fa[1].parse::<u32>().map(|k| k % 4 == 2).unwrap_or(false) {
+            if fa[1].parse::<u32>().map(|k| (5..=12).contains(&sval(k).len())).unwrap_or(false) {
                 return " kf:zip-view-inline-buffer-index";
             }
         }
